@@ -75,4 +75,34 @@ CLAIMS = {
         "(6 pairs), thorough takes the full product. Trusted: CrossHair/z3, the leaf-wrapping recorder.",
         "technique": TECH_S,
     },
+    "C01": {
+        "text": "Bounded symbolic model checking of the real PrimaiteGymEnv on generated scenarios (BLUE proxy agent with "
+        "an action map covering every host action type x components, actions on missing components, router ACL/port "
+        "actions incl. out-of-range positions; periodic GREEN and database-corrupting RED agents): for every action "
+        "index of each of k steps, episode limit M as a solver integer and a mid-episode reset at every position, "
+        "step() does not raise, returns a finite reward, terminated False, truncated == (steps >= M), advances the "
+        "tick by one and appends exactly one history item with a documented status per agent; reset() yields tick 0, "
+        "empty histories, zero rewards and an incremented episode counter, and the next episode obeys the same contract.",
+        "note": "Bounds: k=1 all actions, k=2 with six state-changing first actions (quick); k=2 with every second "
+        "action first, plus the shipped single-RL-agent scenario files with k=1 over their whole action map (thorough). "
+        "Action indices are finite choices, so the solver's role is the exhaustive path enumeration and the truncation "
+        "comparison for every M; reset() itself takes no symbolic input and is run untraced. Scripted agents use the "
+        "scenario's seeded RNG (concrete). Trusted: CrossHair/z3, scenario generator.",
+        "technique": TECH_S,
+    },
+    "C02": {
+        "engine": "symex+py2smt",
+        "text": "Leaf level: the real observation tree built by the from_config chain, evaluated on the real "
+        "describe_state() dictionary in which every quantity a leaf reads is a solver value (every member of the real "
+        "enums, unbounded non-negative counts, listed/unlisted/None ACL fields, absent components); the result is "
+        "checked against the real gymnasium space by a pure-Python membership walker, two observations in a row. "
+        "Environment level: observations returned by reset/step for every action of the generated maps, nested and "
+        "flattened, NMNE capture on/off, spaces equal across episodes. FP level: NIC traffic category and link "
+        "utilisation band translated from source to FP64 and shown to stay in Discrete(11) for all finite doubles.",
+        "note": "Bounds: thresholds of the generated scenario; enums coupled inside a group (every member visited, not "
+        "every product); FirewallObservation is covered only through shipped scenarios in the C01 thorough tier. "
+        "Trusted: CrossHair/z3(/cvc5 fallback), membership walker (validated against space.contains each run), py2smt "
+        "(validated against the real functions on a grid each run).",
+        "technique": "symbolic execution of the real code (CrossHair+z3) + AST-to-SMT translation of the FP categorisation kernels (z3/cvc5 FP64), counterexamples replayed",
+    },
 }
